@@ -268,6 +268,13 @@ func (h *Host) Set(target string, r *Route) {
 	h.mu.Unlock()
 }
 
+// Route returns the route installed for `target`, or nil.
+func (h *Host) Route(target string) *Route {
+	h.mu.Lock()
+	defer h.mu.Unlock()
+	return h.routes[target]
+}
+
 // Gated makes the route of `target` wait for `gate` before answering; reports whether the route exists.
 func (h *Host) Gated(target string, gate chan struct{}) bool {
 	h.mu.Lock()
@@ -343,6 +350,9 @@ func (h *Host) handle(raw net.Conn) {
 			raw.Write([]byte("\x00\x01garbage instead of a TLS record\r\n\r\n"))
 			waitClosed(raw, 5*time.Second)
 			return
+		case "slowhandshake":
+			/* a peer that takes its time before it starts to handshake, then behaves */
+			time.Sleep(pre.Delay)
 		case "reset_pre":
 			if tc, ok := raw.(*net.TCPConn); ok {
 				tc.SetLinger(0)
